@@ -32,8 +32,12 @@ META = {
 MODEL_SRC = '''
 from dataclasses import dataclass
 from typing import Iterable, TypeVar, Generic, Any
-from func_adl import register_func_adl_os_collection
+import ast as _ast
+from func_adl import register_func_adl_os_collection, func_adl_callback
 from func_adl.type_based_replacement import ObjectStreamInternalMethods
+def _cb_new_node(s, a):
+    # a callback that returns a NEW call node (same content) instead of the one it was handed
+    return s, _ast.Call(func=a.func, args=list(a.args), keywords=list(a.keywords))
 T = TypeVar('T'); U = TypeVar('U'); K = TypeVar('K'); V = TypeVar('V')
 class MyIter(Iterable[T]):
     def own_first(self) -> T: ...
@@ -91,7 +95,20 @@ class Jet(Base):
     def lead(self) -> Trk: ...
     def box(self) -> Box[Trk]: ...
     def pair(self) -> Pair[Trk, float]: ...
+@func_adl_callback(_cb_new_node)
+class Vtx(Base):
+    def z(self) -> float: ...
+    def ntrk(self) -> int: ...
+    def lead(self) -> Trk: ...
+    def trks(self) -> Iterable[Trk]: ...
+    def trks_my(self) -> MyIter[Trk]: ...
+    def box(self) -> Box[Trk]: ...
+    @func_adl_callback(_cb_new_node)
+    def best(self) -> Trk: ...
 class Event(Base):
+    def vtx(self) -> Vtx: ...
+    def vtxs(self) -> Iterable[Vtx]: ...
+    def jets_boxed(self) -> Box[Iterable[Jet]]: ...
     def jets(self) -> Iterable[Jet]: ...
     def jets_my(self) -> MyIter[Jet]: ...
     def jets2(self) -> MyIter2[Jet]: ...
@@ -345,6 +362,7 @@ def judge_stage(ctx, stream, cur_t, rnd):
     from func_adl.type_based_replacement import remap_by_types
 
     g = TGen(rnd)
+    cond_case = False
     v = rnd.choice(["e", "x", "j"])
     op = rnd.choice(["Select", "Select", "SelectMany", "Where", "Where-nonbool", "remap"])
     exp_t = None
@@ -366,6 +384,18 @@ def judge_stage(ctx, stream, cur_t, rnd):
             if cur_t in SCALARS:
                 return None
             body, bt = g.expr(v, cur_t, rnd.randint(1, 4))
+            if rnd.random() < 0.25 and bt is not Any:
+                # a conditional whose two branches reach the SAME type along different routes (e.g. once through a substituted
+                # type variable, once through a literal annotation): the type of the conditional is that type
+                for _ in range(8):
+                    b2, bt2 = g.expr(v, cur_t, rnd.randint(1, 4))
+                    if b2 != body and bt2 is not Any and (bt2 == bt) and same_type(bt2, bt):
+                        c = g.boolean(v, cur_t, 0)
+                        if c is not None:
+                            body = f"({body} if {c} else {b2})"
+                            g.interesting = True
+                            cond_case = True
+                        break
         exp_t = bt
     elif op == "SelectMany":
         if cur_t in SCALARS:
@@ -416,6 +446,8 @@ def judge_stage(ctx, stream, cur_t, rnd):
         return None
     ctx.case(key, nt)
     ctx.count("op:" + op)
+    if cond_case:
+        ctx.count("conditionals-with-equal-branch-types")
     if getattr(g, "regops", 0):
         ctx.count("late-registered-operator-uses", g.regops)
     if not same_type(got, exp_t):
